@@ -6,8 +6,8 @@ from ..util import scale_of
 from .C03 import gen_bars, overlapping
 
 ID = "C08"
-CASES = {"quick": 5000, "thorough": 80000}
-MIN_NONTRIVIAL = {"quick": 1500, "thorough": 25000}
+CASES = {"quick": 5000, "thorough": 800000}
+MIN_NONTRIVIAL = {"quick": 1500, "thorough": 68659}
 REQUIRED = ["|grid value - true landscape| <= step/2 at every node and depth", "exact when endpoints lie on the grid",
             "vectorize(exact) == interpolated critical pairs at the nodes", "vectorize(exact) == definition at the nodes",
             "transformer == PersLandscapeApprox values", "transformer flatten == values.flatten()",
